@@ -35,7 +35,7 @@ ASSUMPTIONS = [
 ]
 PROBES = ["add_to_unterminated_document", "replace_field_that_has_comments",
           "delete_last_field_of_unterminated_document", "key_given_in_other_case",
-          "failing_op_leaves_document_unchanged", "gc_step", "handles_dropped_and_refetched"]
+          "failing_op_leaves_document_unchanged", "gc_step", "handles_dropped_and_refetched", "step_without_observation"]
 
 
 def generate(seed, run, tier):
